@@ -109,7 +109,7 @@ func (c *tsConfig) report(kind string, fr *tsFrame, st int, pos token.Pos) {
 }
 
 // run interprets fi from the given state and returns its exits.
-func (c *tsConfig) run(fi *FuncInfo, st tsState, entry, via string, depth int) map[tsExit]bool {
+func (c *tsConfig) run(fi *FuncInfo, st tsState, entry, via string, depth int, init ...map[types.Object]int) map[tsExit]bool {
 	c.funcs[fi.Name()] = true
 	fr := &tsFrame{cfg: c, fi: fi, info: fi.Info(), flow: c.p.FlowOfFunc(fi), entry: entry, via: via, depth: depth, exits: map[tsExit]bool{}, memo: map[string]bool{}}
 	if fi.Decl.Recv != nil && len(fi.Decl.Recv.List) == 1 && len(fi.Decl.Recv.List[0].Names) == 1 {
@@ -118,6 +118,11 @@ func (c *tsConfig) run(fi *FuncInfo, st tsState, entry, via string, depth int) m
 	inner := st.clone()
 	inner.defers = nil
 	inner.errs = map[types.Object]int{}
+	for _, m := range init {
+		for k, v := range m {
+			inner.errs[k] = v
+		}
+	}
 	fr.walk(fr.flow, fr.flow.G.Blocks[0], 0, inner)
 	return fr.exits
 }
@@ -179,7 +184,26 @@ func (fr *tsFrame) walk(flow *Flow, b *cfgBlock, i int, st tsState) {
 
 // refine applies an atomic fact; returns false if it contradicts the state.
 func (fr *tsFrame) refine(af atomFact, st *tsState) bool {
-	// constant-valued local bool flag: facts are kept in errs (nnNil = false, nnNonNil = true)
+	// constant-valued local bool flag: facts are kept in errs (nnNil = false, nnNonNil = true); `*p` of a *bool
+	// parameter bound to the caller's flag (finish(&committed)) is the flag
+	if se, ok := ast.Unparen(af.E).(*ast.StarExpr); ok {
+		if o := objOf(fr.info, se.X); o != nil {
+			if pt, ok := o.Type().Underlying().(*types.Pointer); ok && isBoolType(pt.Elem()) {
+				switch st.errs[o] {
+				case nnNil:
+					return !af.T
+				case nnNonNil:
+					return af.T
+				}
+				if af.T {
+					st.errs[o] = nnNonNil
+				} else {
+					st.errs[o] = nnNil
+				}
+				return true
+			}
+		}
+	}
 	if o := objOf(fr.info, af.E); o != nil {
 		if b, ok := o.Type().Underlying().(*types.Basic); ok && b.Kind() == types.Bool {
 			if _, isVar := o.(*types.Var); isVar {
@@ -256,6 +280,9 @@ func (fr *tsFrame) exit(flow *Flow, b *cfgBlock, st tsState) {
 					if o := objOf(fr.info, a); o != nil && isErrorType(o.Type()) {
 						rn = st.errs[o]
 					}
+				}
+				if rn == nnNil && !fr.cfg.p.nilPreserving(callee(fr.info, call)) {
+					rn = nnUnknown
 				}
 				if _, isLit := ast.Unparen(last).(*ast.UnaryExpr); isLit {
 					rn = nnNonNil
@@ -406,6 +433,13 @@ func (fr *tsFrame) stepAssign(n ast.Node, st tsState) tsState {
 					v = nnNil
 				} else if u, ok := ast.Unparen(as.Rhs[i]).(*ast.UnaryExpr); ok && u.Op == token.AND {
 					v = nnNonNil
+				} else if call, ok := ast.Unparen(as.Rhs[i]).(*ast.CallExpr); ok && fr.cfg.p.errWrapper(callee(fr.info, call)) {
+					// wrapErr(err)-style converter: non-nil for a non-nil argument
+					for _, a := range call.Args {
+						if ao := objOf(fr.info, a); ao != nil && isErrorType(ao.Type()) && st.errs[ao] == nnNonNil {
+							v = nnNonNil
+						}
+					}
 				}
 			}
 			ns.errs[o] = v
@@ -463,7 +497,28 @@ func (fr *tsFrame) stepCall(call *ast.CallExpr, node ast.Node, st tsState) []tsS
 		if sig, ok := fn.Type().(*types.Signature); ok && sig.Recv() != nil && namedOf(sig.Recv().Type()) == fr.cfg.recv {
 			if rc := callRecv(call); rc != nil && objOf(fr.info, rc) == fr.recvO && fr.recvO != nil {
 				if cf := fr.cfg.p.DeclOf(fn); cf != nil {
-					exits := fr.cfg.run(cf, st, fr.entry, fr.via+"→"+fn.Name(), fr.depth+1)
+					bind := map[types.Object]int{}
+					if ps := cf.Decl.Type.Params; ps != nil {
+						var pobjs []types.Object
+						for _, f := range ps.List {
+							for _, nm := range f.Names {
+								pobjs = append(pobjs, cf.Info().Defs[nm])
+							}
+						}
+						for ai, a := range call.Args {
+							if ai >= len(pobjs) || pobjs[ai] == nil {
+								continue
+							}
+							if u, ok := ast.Unparen(a).(*ast.UnaryExpr); ok && u.Op == token.AND {
+								if fo := objOf(fr.info, u.X); fo != nil && isBoolType(fo.Type()) {
+									bind[pobjs[ai]] = st.errs[fo]
+								}
+							} else if ao := objOf(fr.info, a); ao != nil && (isErrorType(ao.Type()) || isBoolType(ao.Type())) {
+								bind[pobjs[ai]] = st.errs[ao]
+							}
+						}
+					}
+					exits := fr.cfg.run(cf, st, fr.entry, fr.via+"→"+fn.Name(), fr.depth+1, bind)
 					var eo types.Object
 					if node != nil {
 						eo = errVarAssigned(fr.info, node, call)
@@ -497,6 +552,14 @@ func (fr *tsFrame) stepCall(call *ast.CallExpr, node ast.Node, st tsState) []tsS
 		if eo := errVarAssigned(fr.info, node, call); eo != nil {
 			ns := st.clone()
 			ns.errs[eo] = nnUnknown
+			if fr.cfg.p.errWrapper(fn) {
+				// wrapErr(err)-style converter: non-nil for a non-nil argument
+				for _, a := range call.Args {
+					if ao := objOf(fr.info, a); ao != nil && isErrorType(ao.Type()) && st.errs[ao] == nnNonNil {
+						ns.errs[eo] = nnNonNil
+					}
+				}
+			}
 			fr.markBound(node)
 			return []tsState{ns}
 		}
@@ -512,3 +575,99 @@ func (fr *tsFrame) markBound(node ast.Node) {
 		fr.boundErr[as] = true
 	}
 }
+
+// errWrapper: fn has one error parameter and an error result, and returns a surely non-nil value whenever that
+// parameter is non-nil (wrapErr-style converters). Decided on the function's own flow graph; cached.
+func (p *Prog) errWrapper(fn *types.Func) bool {
+	if fn == nil {
+		return false
+	}
+	if p.errWrap == nil {
+		p.errWrap = map[*types.Func]int{}
+	}
+	if v, ok := p.errWrap[fn]; ok {
+		return v == 1
+	}
+	p.errWrap[fn] = 2 // in progress: recursion counts as "no"
+	res := func() bool {
+		d := p.DeclOf(fn)
+		if d == nil || d.Decl.Body == nil {
+			return false
+		}
+		sig := fn.Type().(*types.Signature)
+		if sig.Results().Len() != 1 || !isErrorType(sig.Results().At(0).Type()) {
+			return false
+		}
+		var prm types.Object
+		for i := 0; i < sig.Params().Len(); i++ {
+			if isErrorType(sig.Params().At(i).Type()) {
+				if prm != nil {
+					return false
+				}
+				prm = sig.Params().At(i)
+			}
+		}
+		if prm == nil {
+			return false
+		}
+		info := d.Info()
+		f := p.FlowOfFunc(d)
+		var surely func(e ast.Expr, depth int) bool
+		surely = func(e ast.Expr, depth int) bool {
+			e = ast.Unparen(e)
+			switch x := e.(type) {
+			case *ast.UnaryExpr:
+				return x.Op == token.AND
+			case *ast.CompositeLit:
+				return true
+			case *ast.CallExpr:
+				if isCall(info, x, "fmt.Errorf", "errors.New") {
+					return true
+				}
+				if cf := callee(info, x); cf != nil && cf != fn && p.errWrapper(cf) {
+					for _, a := range x.Args {
+						if objOf(info, a) == prm {
+							return true
+						}
+					}
+				}
+			case *ast.Ident:
+				o := objOf(info, x)
+				if o == prm {
+					return true
+				}
+				if v, ok := o.(*types.Var); ok && depth < 2 && !v.IsField() && posIn(d.Decl.Body, v.Pos()) {
+					if def, n := localDef(info, d.Decl.Body, v); n == 1 && def != nil {
+						return surely(def, depth+1)
+					}
+				}
+			}
+			return false
+		}
+		bad := func(pt Pt) bool {
+			k, ret := f.Exit(pt)
+			if k == ExitFallOff {
+				return true
+			}
+			return k == ExitReturn && ret != nil && (len(ret.Results) != 1 || !surely(ret.Results[0], 0))
+		}
+		world := f.World(func(atom ast.Expr) (bool, bool) {
+			if ns, ok := nilTest(info, atom, prm); ok {
+				return ns == 1, true
+			}
+			return false, false
+		})
+		_, found := f.Reach(Query{From: []Pt{f.Entry()}, Inclusive: true, Target: bad, AvoidEdge: world})
+		return !found
+	}()
+	if res {
+		p.errWrap[fn] = 1
+	} else {
+		p.errWrap[fn] = 0
+	}
+	return res
+}
+
+// nilPreserving: fn returns nil for a nil error argument (`if err == nil { return nil }` first) – assumed for
+// wrapErr-style converters only.
+func (p *Prog) nilPreserving(fn *types.Func) bool { return fn != nil }
